@@ -32,7 +32,18 @@ POOL = [(0, 0), (1, 0), (0, 3), (5, 1), (2, 7), (9, 4), (6, 8)]
 QUERIES = [(2, 2), (5, 4), (1, 6), (7, 3), (3, 1), (4, 6), (0, 1), (8, 8)]
 
 
-def pool(seed):
+# a second pool with negative coordinates: 9 of its pairs have a coordinate that cancels exactly
+# (x_i = -y_i != 0), all 21 squared distances distinct
+POOL2 = [(-5, -1), (-5, 1), (0, 2), (1, 2), (2, -2), (5, -6), (5, -2)]
+QUERIES2 = [(-6, -2), (3, -1), (-1, -1), (2, 6), (0, 0), (-2, 2), (4, 1), (-5, 5)]
+
+
+def pool(seed, which=0):
+    if which == 1 and not seed:
+        return POOL2, QUERIES2
+    if which == 1:
+        pts, qs = pool(seed, 0)
+        return [(x - 6, y - 5) for x, y in pts], [(x - 6, y - 5) for x, y in qs]
     if not seed:
         return POOL, QUERIES
     import random
@@ -54,7 +65,8 @@ def sq(a, b):
 
 def bounds(tier):
     return {"n": [3, 4, 5] + ([6] if tier == "thorough" else []),
-            "pool_points": 7, "query_pool": 8, "metrics": FAMILY,
+            "pool_points": "7 non-negative integer points; 7 points with negative coordinates (n<=4; "
+                           "thorough all n)", "query_pool": 8, "metrics": FAMILY,
             "all_permutations_for": FAMILY if tier == "thorough" else FAMILY[:1] + FAMILY[-1:],
             "matrix_mode": "720 strict orders of K4 x 24 node orders x L(4); 3+1 query"}
 
@@ -64,7 +76,9 @@ def plan(tier, seed):
     ns = [3, 4, 5] + ([6] if tier == "thorough" else [])
     for n in ns:
         for ci, comb in enumerate(itertools.combinations(range(7), n)):
-            shards.append(("pts", n, ci))
+            shards.append(("pts", n, ci, 0))
+            if n <= 4 or tier == "thorough":
+                shards.append(("pts", n, ci, 1))
     for a, b in E.chunks(720, 60):
         shards.append(("strict4", a, b))
     shards.sort(key=lambda s: -(s[1] if s[0] == "pts" else 4))
@@ -77,8 +91,8 @@ warm = c01.warm
 def groups(shard, seed, tier="quick"):
     """yields (base program, list of variant programs)"""
     if shard[0] == "pts":
-        _, n, ci = shard
-        pts, qs = pool(seed)
+        _, n, ci, which = shard
+        pts, qs = pool(seed, which)
         comb = list(itertools.combinations(range(7), n))[ci]
         P = [pts[i] for i in comb]
         ds = [sq(a, b) for a, b in itertools.combinations(P, 2)]
